@@ -44,7 +44,7 @@ Definition covered_check (T : table) : bool :=
   && forallb (fun E => existsb (fun x => is_terminal (fst x)) (reach T E)) (entries T).
 Definition taxii_check (T : table) : bool :=
   forallb (fun E => negb (taxii_entry E) ||
-                    (if smem (e_name E) taxii_reparse then taxii_weak_on T E (reach T E) && negb (good_on E (reach T E))
+                    (if smem (e_name E) taxii_reparse then entry_check T E || taxii_weak_on T E (reach T E)
                      else entry_check T E)) (entries T).
 Definition site_check (T : table) : bool := parser_core_ok T && id_sites_ok T && embedded_sites_ok T.
 
@@ -150,7 +150,7 @@ Qed.
 (* ---- the TAXII source / sink / store (in the table, not drivable here) ---- *)
 Lemma taxii_all :
   forallb (fun E => negb (taxii_entry E) ||
-                    (if smem (e_name E) taxii_reparse then taxii_weak_on T E (reach T E) && negb (good_on E (reach T E))
+                    (if smem (e_name E) taxii_reparse then entry_check T E || taxii_weak_on T E (reach T E)
                      else entry_check T E)) (entries T) = true.
 Proof. exact taxii_all0. Qed.
 
@@ -162,32 +162,21 @@ Lemma taxii_version_forwarded_pf : forall E, In E (entries T) -> taxii_entry E =
 Proof.
   intros E HE Hs s Hr Ht. pose proof taxii_all as H. rewrite forallb_forall in H. specialize (H E HE).
   apply orb_true_iff in H as [H|H]; [rewrite Hs in H; discriminate|].
+  assert (entry_check T E = true ->
+          (~ In (e_name E) taxii_reparse -> got s "version" = SArg "version")
+          /\ (got s "version" = SArg "version" \/ got s "version" = SConst "None")
+          /\ ~ In "arg:version" (roots (got s "interoperability"))) as Hfull.
+  { intro Hc. destruct (entry_check_all_chains T E Hc s Hr) as [_ Hok]. specialize (Hok Ht). split; [|split].
+    - intros _. exact (terminal_ok_version E s Hok).
+    - left. exact (terminal_ok_version E s Hok).
+    - rewrite (terminal_ok_interop E s Hok). apply interop_expected_not_version. }
   destruct (smem (e_name E) taxii_reparse) eqn:Hm.
-  - apply andb_true_iff in H as [H _].
+  - apply orb_true_iff in H as [H|H]; [exact (Hfull H)|].
     destruct (taxii_weak_on_spec T E _ H s Hr Ht) as [_ [_ [Hv Hio]]]. split; [|split].
     + intro Hn. exfalso. apply Hn. apply smem_In. exact Hm.
     + unfold version_or_none in Hv. apply orb_true_iff in Hv as [Hv|Hv]; apply sym_eqb_eq in Hv; auto.
     + apply sym_eqb_eq in Hio. rewrite Hio. apply interop_expected_not_version.
-  - destruct (entry_check_all_chains T E H s Hr) as [_ Hok]. specialize (Hok Ht). split; [|split].
-    + intros _. exact (terminal_ok_version E s Hok).
-    + left. exact (terminal_ok_version E s Hok).
-    + rewrite (terminal_ok_interop E s Hok). apply interop_expected_not_version.
-Qed.
-
-(* the deviation recorded for TAXIICollectionSource.all_versions: its first parse (inside
-   self.query(..), called without version=) runs with version None *)
-Lemma taxii_all_versions_first_parse_unversioned_pf :
-  forall E, In E (entries T) -> In (e_name E) taxii_reparse ->
-    exists s, reachable T (e_init E) s /\ is_terminal s = true /\ terminal_ok E s = false.
-Proof.
-  intros E HE Hn. pose proof taxii_all as H. rewrite forallb_forall in H. specialize (H E HE).
-  assert (taxii_entry E = true) as Ht.
-  { unfold taxii_entry. simpl in Hn. destruct Hn as [<-|[<-|[]]]; reflexivity. }
-  apply orb_true_iff in H as [H|H]; [rewrite Ht in H; discriminate|].
-  apply smem_In in Hn. rewrite Hn in H.
-  apply andb_true_iff in H as [Hw Hb]. apply negb_true_iff in Hb.
-  destruct (weak_not_good_on T E _ Hw Hb) as [x [Hx [Hterm Hok]]].
-  exists (fst x). repeat split; auto. apply reach_reachable. exact Hx.
+  - exact (Hfull H).
 Qed.
 
 (* ---- the parser's own use of its parameters, and the id check ---- *)
@@ -289,6 +278,25 @@ Proof. vm_compute. reflexivity. Qed.
 Lemma gen_sites : site_check Tgen = true.
 Proof. vm_compute. reflexivity. Qed.
 
+(* ---- TAXII: the all_versions -> query call site is the ONLY deviation ---- *)
+Definition all_entries_check (T : table) : bool := forallb (fun E => entry_check T E) (entries T).
+
+Lemma all_entries_forward : forall T, all_entries_check T = true ->
+  forall E, In E (entries T) -> forall s, reachable T (e_init E) s -> is_terminal s = true ->
+    got s "version" = SArg "version" /\ ~ In "arg:version" (roots (got s "interoperability")).
+Proof.
+  intros T H E HE s Hr Ht. unfold all_entries_check in H. rewrite forallb_forall in H. specialize (H E HE).
+  destruct (entry_check_all_chains T E H s Hr) as [_ Hok]. specialize (Hok Ht). split.
+  - exact (terminal_ok_version E s Hok).
+  - rewrite (terminal_ok_interop E s Hok). apply interop_expected_not_version.
+Qed.
+
+Lemma gen_single_site_repair : all_entries_check (with_query_version Tgen) = true.
+Proof. vm_compute. reflexivity. Qed.
+
+Lemma gen_repair_keeps_entries : map e_name (entries (with_query_version Tgen)) = map e_name (entries Tgen).
+Proof. vm_compute. reflexivity. Qed.
+
 (* ---- the defective variant (frozen excerpt of the pinned table) ---- *)
 Definition witness_check (T : table) (n : string) (P : state -> bool) : bool :=
   match find_entry T n with
@@ -320,3 +328,22 @@ Proof.
   unfold positional_defect_state in HP. apply andb_true_iff in HP as [HP H3]. apply andb_true_iff in HP as [H1 H2].
   apply sym_eqb_eq in H2, H3. exists E, s. repeat split; auto.
 Qed.
+
+(* frozen excerpt of the TAXII source: all_versions reaches the parser once with version None *)
+Definition unversioned_state (s : state) : bool :=
+  is_terminal s && sym_eqb (got s "version") (SConst "None").
+
+Lemma pinned_taxii_check : witness_check pinned_taxii "taxii.TAXIICollectionSource.all_versions" unversioned_state = true.
+Proof. vm_compute. reflexivity. Qed.
+
+Lemma taxii_all_versions_first_parse_unversioned_pf :
+  exists E s, In E (entries pinned_taxii) /\ e_name E = "taxii.TAXIICollectionSource.all_versions"
+    /\ reachable pinned_taxii (e_init E) s /\ is_terminal s = true /\ got s "version" = SConst "None".
+Proof.
+  destruct (witness_check_spec _ _ _ pinned_taxii_check) as [E [s [HE [Hn [Hr HP]]]]].
+  unfold unversioned_state in HP. apply andb_true_iff in HP as [H1 H2]. apply sym_eqb_eq in H2.
+  exists E, s. repeat split; auto.
+Qed.
+
+Lemma pinned_taxii_repaired : all_entries_check (with_query_version pinned_taxii) = true.
+Proof. vm_compute. reflexivity. Qed.
